@@ -59,6 +59,14 @@ def run(ctx):
         cfg = fw.write_cfg(ctx.path("MC_DivWordAlg_%d_%d.cfg" % (w, ml)), invariants=["DivWordOK", "RemWordOK", "DivDwordPow2OK"],
                            constants={"W": w, "MaxLen": ml})
         ctx.mc("mc-divword-w%d-n%d" % (w, ml), "C02", "DivWordAlg.tla", cfg, required_actions=["Pick", "PickD"])
+    # algorithm layer, multi-word divisors: Knuth D with the 3-by-2 estimate and its single correction, the divide-and-conquer
+    # recursion (blocks, 3n/2n steps, 2m/m estimate with at most two corrections), threshold scaled down to its minimum 3
+    for nm, seeds, nl, ql in ctx.pick([("a", "{1, 2}", "{2, 3, 4, 5, 6, 7, 8}", "{0, 1, 2, 3, 4, 5, 6, 7}")],
+                                      [("a", "{1, 2, 3, 4, 5, 6}", "{2, 3, 4, 5, 6, 7, 8}", "{0, 1, 2, 3, 4, 5, 6, 7}")]):
+        cfg = fw.write_cfg(ctx.path("MC_DivLargeAlg_%s.cfg" % nm), invariants=["DivOK"],
+                           constants={"W": 2, "TD": 3, "NLens": nl, "QLens": ql, "Seeds": seeds})
+        ctx.mc("mc-divlarge-" + nm, "C02", "DivLargeAlg.tla", cfg)
+    ctx.scope.update({"DivLargeAlg": "W=2, THRESHOLD_SIMPLE=3, divisors of 2..8 words (27 normalised shapes per seed), quotients of 0..7 words, block-pattern dividends"})
     # spec -> impl
     # the size classes follow the schoolbook / divide-and-conquer switch of the code (read from the source)
     sc = fw.source_constants()
@@ -82,7 +90,7 @@ def run(ctx):
     return ctx.finish(
         rule="one event = one (dividend, divisor) pair executed in every division form (/, %, div_rem, Euclidean forms, assign "
              "forms, primitive divisors/dividends of every width, ConstDivisor, is_multiple_of); non-trivial = both operands non-zero",
-        explanation="IntDivAlg (sign fix-up macros) model-checked exhaustively for |a|,|b| <= MaxV; DivWordAlg (single/double-word fast paths, "
+        explanation="IntDivAlg (sign fix-up macros) model-checked exhaustively for |a|,|b| <= MaxV; DivLargeAlg (Knuth D and the divide-and-conquer recursion at word level, every assertion an obligation); DivWordAlg (single/double-word fast paths, "
                     "shift helpers, 2-by-1 division precondition) for all dividends of up to 4 three-bit words; Gen_C02 constructs a := q*b + r over "
                     "divisor/quotient size classes; Trace_C02 recomputes (q, r) with an independent Knuth-D on byte limbs and re-asserts the identity.",
         required_cover=["zero-divisor", "signs:++", "signs:+-", "signs:-+", "signs:--", "divisor:1w", "divisor:2w", "divisor:3-32w",
